@@ -426,8 +426,12 @@ class Fn(object):
             return self.cond_atoms(n['sub'], truth)
         if k == 'unop' and n['op'] == '!':
             return self.cond_atoms(n['sub'], not truth)
-        if k == 'call' and n.get('op') == '!' and n.get('obj', -1) >= 0:
-            return [(s, truth)]
+        # a join block can carry a compound condition (`do {} while (a && b)`): on its true edge both conjuncts hold,
+        # on the false edge of `a || b` both disjuncts are false; the other edges tell nothing about the operands
+        if k == 'binop' and n['op'] == '&&' and truth:
+            return self.cond_atoms(n['l'], True) + self.cond_atoms(n['r'], True)
+        if k == 'binop' and n['op'] == '||' and not truth:
+            return self.cond_atoms(n['l'], False) + self.cond_atoms(n['r'], False)
         return [(s, truth)]
 
     def edge_conds(self, b, si):
